@@ -92,10 +92,18 @@ inductive Res (α : Type) where
 
 /-! ### invariant, frame -/
 
-def Inv (s : PState) : Prop :=
-  (s.dropped = false →
-    textList s.builder.children ++ pendingText s.pending ++ curText s.current ++ s.lx.src = s.original) ∧
-  (∀ p ∈ s.builder.parents, p.2 ≤ s.builder.children.length)
+structure Inv (s : PState) : Prop where
+  /-- nothing is lost between lexer and tree unless a token was knowingly dropped -/
+  text : s.dropped = false →
+    textList s.builder.children ++ pendingText s.pending ++ curText s.current ++ s.lx.src = s.original
+  /-- rowan bookkeeping: every open node starts inside the children vector -/
+  parents : ∀ p ∈ s.builder.parents, p.2 ≤ s.builder.children.length
+  /-- without a token limit the lexer only finishes after the EOF token, i.e. on empty input -/
+  lexDone : s.lx.finished = true → s.lx.limit = none → s.lx.src = []
+  /-- an EOF token in `current_token` is empty and means the input is exhausted -/
+  eofTok : ∀ t, s.current = some t → t.kind = .eof → t.data = [] ∧ s.lx.src = [] ∧ s.lx.finished = true
+  /-- the parser only stops accepting errors after it has recorded (at least) a limit error -/
+  errNonempty : s.acceptErrors = false → s.errors ≠ []
 
 structure Frame (s s' : PState) : Prop where
   parents : s'.builder.parents = s.builder.parents
@@ -103,15 +111,16 @@ structure Frame (s s' : PState) : Prop where
   recCur : s'.recCur = s.recCur
   recLimit : s'.recLimit = s.recLimit
   original : s'.original = s.original
+  limit : s'.lx.limit = s.lx.limit
   frozen : s.acceptErrors = false ∧ s.lx.finished = true →
     s'.errors = s.errors ∧ s'.acceptErrors = false ∧ s'.lx.finished = true
 
 theorem Frame.refl (s : PState) : Frame s s :=
-  ⟨rfl, ⟨[], by simp⟩, rfl, rfl, rfl, fun h => ⟨rfl, h.1, h.2⟩⟩
+  ⟨rfl, ⟨[], by simp⟩, rfl, rfl, rfl, rfl, fun h => ⟨rfl, h.1, h.2⟩⟩
 
 theorem Frame.trans {a b c : PState} (h1 : Frame a b) (h2 : Frame b c) : Frame a c := by
   refine ⟨h2.parents.trans h1.parents, ?_, h2.recCur.trans h1.recCur, h2.recLimit.trans h1.recLimit,
-    h2.original.trans h1.original, ?_⟩
+    h2.original.trans h1.original, h2.limit.trans h1.limit, ?_⟩
   · obtain ⟨x, hx⟩ := h1.children
     obtain ⟨y, hy⟩ := h2.children
     exact ⟨x ++ y, by rw [hy, hx, List.append_assoc]⟩
